@@ -168,6 +168,15 @@ def ok_err_of_return_sites(body):
             rv = s['rv']
             if rv['k'] == 'aggr' and rv.get('kind') == 'adt' and 'Result' in rv.get('adt', ''):
                 out.append((b, i, rv['variant'], s))
+            elif rv['k'] == 'use':
+                # the value of an inlined helper (or a temporary) moved into the return place
+                tr = body.trace(rv['op'])
+                if tr.get('kind') == 'aggr' and tr['rv'].get('kind') == 'adt' and 'Result' in tr['rv'].get('adt', '') and tr['rv'].get('variant'):
+                    out.append((b, i, tr['rv']['variant'], s))
+                elif tr.get('kind') == 'call' and 'from_residual' in callee_name(tr['term']):
+                    out.append((b, i, 'Err', s))
+                else:
+                    out.append((b, i, 'other', s))
             else:
                 out.append((b, i, 'other', s))
     for b, t in body.iter_terms('call'):
@@ -326,3 +335,66 @@ def zero_switches(body, is_x):
             op = body.term(sw)['op']
             if 0 in info['arms'] and len(info['arms']) == 1 and is_x(info['src'], op):
                 yield sw, info['arms'][0], info['otherwise'], op
+
+
+def expand_phi_stores(body, stores):
+    """A store `field = t` whose value local t has several reaching definitions (`field = if c { 0 } else { n + 1 }`, a tuple returned
+    by two branches ...) is the same as one store per definition, placed at that definition.  yields (block, idx, stmt) with synthetic
+    statements (same destination, the definition's own rvalue / operand) for such stores, the store itself otherwise."""
+    for b, i, s in stores:
+        rv = s['rv']
+        q = mir.op_place(rv['op']) if rv['k'] == 'use' else None
+        if q is None or 1 <= q['l'] <= body.arg_count:
+            yield b, i, s
+            continue
+        pr = q.get('p') or []
+        if body.single_def_at(q['l'], b) is not None or (pr and pr[0] == '*'):
+            yield b, i, s
+            continue
+        live = body.reachable()
+        ds = [d for d in body.defs().get(q['l'], []) if d[2] == 'assign' and d[0] in live and b in body.reachable(d[0])]
+        alld = [d for d in body.defs().get(q['l'], []) if d[2] != 'partial' and d[0] in live]
+        if len(ds) < 2 or len(ds) != len(alld):
+            yield b, i, s
+            continue
+        out = []
+        for db, di, kind, payload in ds:
+            drv = payload['rv']
+            if not pr:
+                out.append((db, di, {'k': 'assign', 'place': s['place'], 'rv': drv, 'line': payload.get('line'), 'phi_of': (b, i)}))
+                continue
+            # projected use of an aggregate built in each branch: take the operand of the projected field
+            if drv['k'] == 'aggr' and len(pr) == 1 and isinstance(pr[0], dict) and isinstance(pr[0].get('f'), int) and pr[0]['f'] < len(drv.get('ops') or []):
+                out.append((db, di, {'k': 'assign', 'place': s['place'], 'rv': {'k': 'use', 'op': drv['ops'][pr[0]['f']]}, 'line': payload.get('line'), 'phi_of': (b, i)}))
+            else:
+                out = None
+                break
+        if not out:
+            yield b, i, s
+        else:
+            for x in out:
+                yield x
+
+
+def cond_ids(body, b):
+    """identities of the conditions block b is control dependent on: set of (value id, edge polarity) where the value id names the
+    tested boolean / comparison by its definition site, so that two `if c` on the same unchanged `c` compare equal"""
+    out = set()
+    for sw, succ in body.control_deps_closure(b):
+        info = body.switch_info(sw)
+        if not info or info.get('kind') not in ('cmp', 'bool'):
+            continue
+        src = info.get('src') or {}
+        vid = None
+        if src.get('kind') == 'bin':
+            vid = ('def', src.get('block'), src.get('stmt'))
+        elif src.get('kind') == 'local':
+            vid = ('local', src.get('l'))
+        elif src.get('kind') == 'call':
+            vid = ('call', src.get('block'))
+        if vid is None:
+            continue
+        pol = True if succ == info.get('true') else (False if succ == info.get('false') else None)
+        if pol is not None:
+            out.add((vid, pol))
+    return out
